@@ -269,3 +269,30 @@ Lemma builtin_protects :
   forallb (protected (builtin_table false)) promised_plain = true /\
   forallb (protected (builtin_table true)) promised_all = true.
 Proof. split; vm_compute; reflexivity. Qed.
+
+(* ---- empty announced table: the reader is the identity on the stream, for every chunking
+   and every sequence of caller buffer sizes ---- *)
+Lemma er_run_passthru_concat : forall fuel cs sizes dflt,
+  all_nonempty cs = true -> Forall (fun s => 1 <= s)%nat sizes -> (1 <= dflt)%nat ->
+  (length (concat cs) + length cs < fuel)%nat ->
+  concat (er_run_passthru fuel cs sizes dflt) = concat cs.
+Proof.
+  induction fuel as [|fuel IH]; intros cs sizes dflt Hne Hsz Hdf Hf; [lia|].
+  cbn [er_run_passthru].
+  destruct (next_size sizes dflt) as [size sizes'] eqn:Ens.
+  assert (Hs : (1 <= size)%nat /\ Forall (fun s => 1 <= s)%nat sizes').
+  { destruct sizes as [|s r]; simpl in Ens; injection Ens as <- <-; [split; auto|].
+    inversion Hsz; subst; split; auto. }
+  destruct Hs as [Hs Hsz'].
+  destruct cs as [|c cs']; [reflexivity|].
+  apply all_nonempty_cons in Hne as [Hc Hne].
+  cbn [concat length] in Hf. rewrite app_length in Hf.
+  destruct (Nat.leb_spec (length c) size) as [L|G].
+  - cbn [concat]. rewrite IH; auto. lia.
+  - cbn [concat]. rewrite IH; auto.
+    + cbn [concat]. rewrite app_assoc, firstn_skipn. reflexivity.
+    + unfold all_nonempty. cbn [forallb]. fold (all_nonempty cs'). rewrite Hne, andb_true_r.
+      destruct (skipn size c) eqn:E; [|reflexivity].
+      assert (length (skipn size c) = 0)%nat by (rewrite E; reflexivity). rewrite skipn_length in H. lia.
+    + cbn [concat length]. rewrite app_length, skipn_length. lia.
+Qed.
